@@ -231,7 +231,7 @@ class Target:
             if st == 'FAILURE' and 'trace' in r:
                 ob['trace'] = summarize_trace(r['trace'])
             res['obligations'].append(ob)
-        nloops = sum(f['loops'] for f in self.info['functions'])
+        nloops = sum(f['loops'] for f in self.info['functions'] if f['c_name'] not in self.replace)
         want = self.loops if self.loops is not None else nloops
         res['loop_step_obligations'] = steps
         if steps < want:
